@@ -37,6 +37,8 @@ KINDS = [
     ('bitvector assertion not satisfied', 'assert'),
     ('impossible case reached', 'panic'),
     ('requires not satisfied', 'requires'),
+    ('precondition not met', 'panic'),
+    ('requirement not met', 'panic'),
     ('precondition not satisfied', 'requires'),
     ('invariant not satisfied', 'invariant'),
     ('loop invariant', 'invariant'),
@@ -107,6 +109,12 @@ def run(unit_text, workdir, name, rlimit=None, seed=None, extra=(), census=True,
         js = json.loads(p.stdout)
     except Exception:
         js = None
+    # when the front end (rustc / VIR translation) accepted the file, every remaining error diagnostic is a
+    # failed proof obligation, whatever its wording; when it did not, nothing was verified
+    vir_err = True
+    if js:
+        vrs = js.get('verification-results', {})
+        vir_err = bool(vrs.get('encountered-vir-error')) or ('verified' not in vrs)
     for line in p.stderr.split('\n'):
         line = line.strip()
         if not line.startswith('{'):
@@ -127,7 +135,7 @@ def run(unit_text, workdir, name, rlimit=None, seed=None, extra=(), census=True,
         kind = classify(msg)
         spans = d.get('spans', [])
         prim = [s for s in spans if s.get('is_primary')]
-        if d.get('code') or (kind == 'other' and not _is_verification_msg(msg)):
+        if d.get('code') or (vir_err and kind == 'other' and not _is_verification_msg(msg)):
             r.hard_errors.append((msg, prim[0]['line_start'] if prim else 0, d.get('rendered', '')))
             continue
         f = Failure()
@@ -169,7 +177,7 @@ def run(unit_text, workdir, name, rlimit=None, seed=None, extra=(), census=True,
 
 def _is_verification_msg(msg):
     ml = msg.lower()
-    return any(x in ml for x in ('not satisfied', 'assertion', 'overflow', 'underflow', 'termination', 'unable to prove', 'may fail to meet', 'cannot show', 'impossible case',
+    return any(x in ml for x in ('not satisfied', 'assertion', 'overflow', 'underflow', 'termination', 'unable to prove', 'may fail to meet', 'cannot show', 'impossible case', 'precondition not met', 'requirement not met',
                                  'decreases', 'recommendation', 'type invariant', 'resource limit', 'rlimit', 'division by zero'))
 
 
